@@ -136,7 +136,7 @@ class SList(SV):
         def elem(k, items=items):
             try:
                 return items[_conc(k)]
-            except ValueError:
+            except (ValueError, IndexError):
                 pass
             # symbolic index into a concrete list: if-then-else chain (homogeneous node/str/int lists only)
             for T, dflt in ((SNode, L.null), (SStr, L.none_s), (SInt, z3.IntVal(0))):
